@@ -392,6 +392,19 @@ func TestC18(t *testing.T) {
 		if rapid.Bool().Draw(rt, "anynanos") {
 			c.Nanos = rapid.IntRange(0, 999999999).Draw(rt, "nanos")
 		}
+		if rapid.IntRange(0, 9).Draw(rt, "edge") < 3 {
+			// within two seconds of a change of a named zone's offset, as wall-clock time of that zone, under that zone
+			c.Zone = rapid.SampledFrom(transitionZones).Draw(rt, "tzone")
+			ts := zoneTransitions(c.Zone)
+			loc, _ := time.LoadLocation(c.Zone)
+			at := ts[rapid.IntRange(0, len(ts)-1).Draw(rt, "ti")].Add(time.Duration(rapid.IntRange(-2, 1).Draw(rt, "ds")) * time.Second).In(loc)
+			_, off := at.Zone()
+			c.Year, c.Month, c.Day, c.Hour, c.Min, c.Sec = at.Year(), int(at.Month()), at.Day(), at.Hour(), at.Minute(), at.Second()
+			if off%60 == 0 && rapid.Bool().Draw(rt, "ownoff") {
+				c.Offset = off
+			}
+			ev.Label("random:near_offset_change")
+		}
 		key, _ := json.Marshal(c)
 		ev.Eval(string(key), true)
 		ev.Check(rt, "c18.value", c, checkDTValue(c))
